@@ -5,14 +5,16 @@
 set -u
 ID="$1"; shift
 V=/verif
+HP="${HPREFIX:-h}"          # h = first corpus (cosmetic / local refactors), h2 = structural refactors (stored as harmless/s<Cxx>_k)
+TAG=""; [ "$HP" = "h2" ] && TAG="s"
 PROPS="$*"; [ -z "$PROPS" ] && PROPS=$(seq -f "C%02g" 1 20)
 for k in 1 2 3 4; do
-  D=$V/harmless/${ID}_$k; mkdir -p "$D"
-  [ -f /tmp/wt/h_$ID/harmless_$k.diff ] && cp /tmp/wt/h_$ID/harmless_$k.diff "$D/patch.diff"
-  [ -s "$D/patch.diff" ] || { echo "${ID}_$k: no patch"; rmdir "$D" 2>/dev/null; continue; }
+  D=$V/harmless/${TAG}${ID}_$k; mkdir -p "$D"
+  [ -f /tmp/wt/${HP}_$ID/harmless_$k.diff ] && cp /tmp/wt/${HP}_$ID/harmless_$k.diff "$D/patch.diff"
+  [ -s "$D/patch.diff" ] || { echo "${TAG}${ID}_$k: no patch"; rmdir "$D" 2>/dev/null; continue; }
   S=$(mktemp -d /tmp/harmchk.XXXXXX); rmdir "$S"
   git -C /repo worktree add -q --detach "$S" HEAD || exit 9
-  if ! git -C "$S" apply "$D/patch.diff" 2>/dev/null; then echo "${ID}_$k: PATCH-DOES-NOT-APPLY"; git -C /repo worktree remove --force "$S"; continue; fi
+  if ! git -C "$S" apply "$D/patch.diff" 2>/dev/null; then echo "${TAG}${ID}_$k: PATCH-DOES-NOT-APPLY"; git -C /repo worktree remove --force "$S"; continue; fi
   T=$(cd "$S" && PYTHONPATH=$S/src /venv/bin/python -m pytest -q -p no:cacheprovider --timeout=900 2>&1 | tail -1)
   res=""
   O=$(mktemp -d /tmp/harmout.XXXXXX)
@@ -27,5 +29,5 @@ for k in 1 2 3 4; do
   done
   rm -rf "$O"
   git -C /repo worktree remove --force "$S"
-  echo "${ID}_$k: tests[$T] nonzero:[${res:- none}]"
+  echo "${TAG}${ID}_$k: tests[$T] nonzero:[${res:- none}]"
 done
